@@ -160,10 +160,19 @@ Fixpoint parse (j : jv) : pt :=
    value is a data object with [i_hash = -1]); with a mapper whatever the mapper
    builds from the item – it may read any entry (the mappers of the pinned suite
    read "type", "name", "data_id").  Both are instances of [dd].          *)
-Definition dmapper := jdict -> res info.
+(* The step also yields the item dict as the mapper leaves it: a deserialize
+   mapper may add, change or pop entries ("mapper may add item['data_id']" in
+   the source) and Node.from_dict reads "data_id" and "node_id" AFTER the mapper
+   ran.  ("children" is read after the mapper as well; mappers that touch that
+   entry are outside the modelled domain.) *)
+Definition dmapper := jdict -> res (info * jdict).
+
+(* a step that leaves the item alone *)
+Definition dd_pure (f : jdict -> res info) : dmapper :=
+  fun d => match f d with inl i => inl (i, d) | inr e => inr e end.
 
 Definition dd_raw (raw : jv -> res info) : dmapper :=
-  fun d => match dget k_data d with None => inr E_KEY | Some v => raw v end.
+  dd_pure (fun d => match dget k_data d with None => inr E_KEY | Some v => raw v end).
 
 (* data_id=item.get("data_id"): None -> tree.calc_data_id(data), which raises
    for unhashable data (or when the hook raises) *)
@@ -222,17 +231,20 @@ Definition mk_info (i : info) (d : did) (nid : option Z) : info :=
   I (i_obj i) (i_eqc i) (i_hash i) (i_isstr i) (i_name i) d None
     (match nid with Some z => [(k_node_id, A z)] | None => [] end).
 
-(* the explicit node ids an item and its descendants register, in pre-order *)
-Fixpoint nids (p : pt) : list Z :=
-  match p with
-  | PBad => []
-  | PT d kids =>
-      (match nid_of (dget k_node_id d) with inl (Some z) => [z] | _ => [] end) ++ flat_map nids kids
-  end.
-
 Section FromDict.
   Variable dd : dmapper.
   Variable calc : info -> res did.
+
+  (* the explicit node ids an item and its descendants register, in pre-order *)
+  Fixpoint nids (p : pt) : list Z :=
+    match p with
+    | PBad => []
+    | PT d kids =>
+        (match dd d with
+         | inl (_, d') => match nid_of (dget k_node_id d') with inl (Some z) => [z] | _ => [] end
+         | inr _ => []
+         end) ++ flat_map nids kids
+    end.
 
   (* one loop iteration of Node.from_dict for item [p]; [seen] = data_ids of
      the children appended to the same parent so far (Tree._register refuses a
@@ -245,12 +257,12 @@ Section FromDict.
     | PT d kids =>
         match dd d with
         | inr e => inr e
-        | inl i0 =>
-            let dres := did_for calc (dget k_data_id d) i0 in
-            match (if did_early (dget k_data_id d) then dres else inl (DInt 0)) with
+        | inl (i0, d') =>
+            let dres := did_for calc (dget k_data_id d') i0 in
+            match (if did_early (dget k_data_id d') then dres else inl (DInt 0)) with
             | inr e => inr e
             | inl _ =>
-                match nid_check (dget k_node_id d) used with
+                match nid_check (dget k_node_id d') used with
                 | inr e => inr e
                 | inl nid =>
                     match dres with
